@@ -9,6 +9,7 @@ import (
 	"context"
 	"flag"
 	"fmt"
+	gerrors "github.com/acquirecloud/golibs/errors"
 	"io"
 	"log"
 	"os"
@@ -87,10 +88,13 @@ type Case struct {
 	// scenario (xi) "waited": the acquisition (Acq = lock) starts while another Locker (own provider on the bare store,
 	// lease 1 h) holds the lock and goes on WaitU units of TTL/24 later, when that Locker unlocks: the tenure under study
 	// begins after a wait of 0.6 .. 1.7 lease periods inside Lock; its record must carry the lease of THAT moment
-	WaitU int    `json:"wait_u,omitempty"`
-	Pre   string `json:"pre,omitempty"`
-	PreK  int    `json:"pre_k,omitempty"`
-	Jit   uint64 `json:"jit"`
+	WaitU int `json:"wait_u,omitempty"`
+	// the storage is reached over gRPC: every error it reports arrives as a status error (errors.GRPCWrap), which
+	// errors.Is of the library classifies like the sentinel it stands for
+	GRPC bool   `json:"grpc,omitempty"`
+	Pre  string `json:"pre,omitempty"`
+	PreK int    `json:"pre_k,omitempty"`
+	Jit  uint64 `json:"jit"`
 }
 
 type outcome struct {
@@ -118,6 +122,36 @@ type outcome struct {
 	failIdx     int
 	failCode    int
 	failText    string
+}
+
+// grpcStore turns the errors of a storage into what a gRPC client of it would see
+type grpcStore struct{ kvs.Storage }
+
+func (g grpcStore) Create(ctx context.Context, r kvs.Record) (string, error) {
+	v, err := g.Storage.Create(ctx, r)
+	return v, gerrors.GRPCWrap(err)
+}
+func (g grpcStore) Get(ctx context.Context, k string) (kvs.Record, error) {
+	v, err := g.Storage.Get(ctx, k)
+	return v, gerrors.GRPCWrap(err)
+}
+func (g grpcStore) Put(ctx context.Context, r kvs.Record) (kvs.Record, error) {
+	v, err := g.Storage.Put(ctx, r)
+	return v, gerrors.GRPCWrap(err)
+}
+func (g grpcStore) CasByVersion(ctx context.Context, r kvs.Record) (kvs.Record, error) {
+	v, err := g.Storage.CasByVersion(ctx, r)
+	return v, gerrors.GRPCWrap(err)
+}
+func (g grpcStore) Delete(ctx context.Context, k string) error {
+	return gerrors.GRPCWrap(g.Storage.Delete(ctx, k))
+}
+func (g grpcStore) WaitForVersionChange(ctx context.Context, k, ver string) error {
+	err := g.Storage.WaitForVersionChange(ctx, k, ver)
+	if err == nil || ctx.Err() != nil {
+		return err
+	}
+	return gerrors.GRPCWrap(err)
 }
 
 const releaseMargin = 3 * time.Second
@@ -166,14 +200,20 @@ func runScenario(cs Case) (o *outcome) {
 	case "race_after":
 		c.parkK, c.parkPos = cs.EndK, "after"
 	}
-	pH := dist.NewKvsLockProvider(holderView{c}, "/verif/")
-	p1 := dist.NewKvsLockProvider(contView{c, 1}, "/verif/")
-	p2 := dist.NewKvsLockProvider(contView{c, 2}, "/verif/")
+	wrap := func(s kvs.Storage) kvs.Storage {
+		if cs.GRPC {
+			return grpcStore{s} // the storage is reached over gRPC: its errors arrive as status errors
+		}
+		return s
+	}
+	pH := dist.NewKvsLockProvider(wrap(holderView{c}), "/verif/")
+	p1 := dist.NewKvsLockProvider(wrap(contView{c, 1}), "/verif/")
+	p2 := dist.NewKvsLockProvider(wrap(contView{c, 2}), "/verif/")
 	if !dist.VerifSetLeaseTTL(pH, ttl) || !dist.VerifSetLeaseTTL(p1, ttl) || !dist.VerifSetLeaseTTL(p2, ttl) {
 		o.fatal = "VerifSetLeaseTTL: not a kvs lock provider"
 		return
 	}
-	p3 := dist.NewKvsLockProvider(contView{c, 3}, "/verif/")
+	p3 := dist.NewKvsLockProvider(wrap(contView{c, 3}), "/verif/")
 	if !dist.VerifSetLeaseTTL(p3, time.Hour) {
 		o.fatal = "VerifSetLeaseTTL: not a kvs lock provider"
 		return
@@ -1032,8 +1072,11 @@ func generate(seed uint64, thorough bool) []Case {
 				}
 				races = races[:n]
 			}
-			for _, x := range races {
+			for i, x := range races {
 				add(Case{TTLms: ttl, Acq: acq(), End: x.pos, EndK: x.k})
+				if i%2 == 0 {
+					add(Case{TTLms: ttl, Acq: acq(), End: x.pos, EndK: x.k, GRPC: true})
+				}
 			}
 			// (xi) the acquisition had to wait 0.6 .. 1.7 lease periods inside Lock for another Locker
 			add(Case{TTLms: ttl, Acq: "lock", End: "unlock", HoldU: r.Range(60, 84), WaitU: r.Range(15, 40)})
